@@ -614,9 +614,77 @@ def run_agg(case):
     return obs
 
 
+def _run_nested_once(case, opaque):
+    """[before..., composite(inner sources, inner flags), after...] with the outer flags; `opaque`: the inner composite is
+    wrapped in a plain data source (a composite IS a data source: the two must be indistinguishable)"""
+    ds, ver, Rec = _vinegar()
+    get_log, find_log, kept = [], [], []
+    mk = lambda specs: [Rec(dict(s_), get_log, find_log, kept) for s_ in specs]
+    inner = ds.get_composite_data_source(mk(case["inner"]), merge_lists=case["iml"], merge_sets=case["ims"])
+    if opaque:
+        class Wrapper(ds.DataSource):
+            def __init__(self, src):
+                self._src = src
+
+            def get_data(self, system_id, preceding_data, preceding_data_version):
+                return self._src.get_data(system_id, preceding_data, preceding_data_version)
+
+            def find_system(self, lookup_key, lookup_value):
+                return self._src.find_system(lookup_key, lookup_value)
+        inner = Wrapper(inner)
+    comp = ds.get_composite_data_source(mk(case["before"]) + [inner] + mk(case["after"]),
+                                        merge_lists=case["ml"], merge_sets=case["ms"])
+    d0 = dec(case["d0"])
+    out, _ = _call(lambda: comp.get_data(case["sid"], d0, case["v0"]))
+    if "ok" in out:
+        r = out["ok"]
+        out = {"ok": [enc(r[0]), None]} if isinstance(r, tuple) and len(r) == 2 else {"exc": "BadReturn"}
+    # versions are opaque hashes of the same inputs in both runs; data handed to every source must coincide
+    return {"result": out, "log": [{"sid": e["sid"], "pd": e["pd"], "out": ({"exc": e["out"]["exc"]} if "exc" in e.get("out", {})
+                                                                     else {"ok": e.get("out", {}).get("ok", [None])[0]})}
+                                   for e in get_log]}
+
+
+def run_nested(case):
+    return {"direct": _run_nested_once(case, False), "opaque": _run_nested_once(case, True)}
+
+
+def rand_nested_case(rng):
+    key, value = rng.choice(["mac", "ip"]), J(rand_scalar(rng))
+    d0 = rand_dict(rng, 2) if rng.random() < 0.5 else {}
+    base = d0 or {"a": 1, "k": [1], "s": {"x"}}
+    def consts(n):
+        out = rand_sources(rng, n, base, key, value)
+        for s_ in out:
+            if s_["get"]["kind"] == "raise" and rng.random() < 0.8:
+                s_["get"] = {"kind": "const", "data": J(rand_dict(rng, 2)), "version": rand_version(rng)}
+        return out
+    ml, ms = rand_flags(rng)
+    iml, ims = rand_flags(rng)
+    if rng.random() < 0.7 and (ml, ms) == (iml, ims):
+        iml, ims = not ml, not ms           # differing flags are the interesting case
+    return {"kind": "nested", "ml": ml, "ms": ms, "iml": iml, "ims": ims, "sid": "sys1", "d0": J(d0), "v0": rand_version(rng),
+            "before": consts(rng.randint(0, 2)), "inner": consts(rng.randint(1, 3)), "after": consts(rng.randint(0, 2)),
+            "_meta": {"scope": "nested"}}
+
+
+NESTED_FIXED = [
+    {"kind": "nested", "ml": False, "ms": True, "iml": True, "ims": True, "sid": "sys1", "d0": J({}), "v0": "",
+     "before": [], "after": [{"get": {"kind": "echo", "key": J("seen"), "prefix": "e:"}, "find": {"kind": "none"}}],
+     "inner": [{"get": {"kind": "const", "data": J({"l": [0, 1]}), "version": "a"}, "find": {"kind": "none"}},
+               {"get": {"kind": "const", "data": J({"l": [2]}), "version": "b"}, "find": {"kind": "none"}}],
+     "_meta": {"scope": "nested-fixed"}},
+    {"kind": "nested", "ml": False, "ms": True, "iml": False, "ims": False, "sid": "sys1", "d0": J({}), "v0": "",
+     "before": [], "after": [],
+     "inner": [{"get": {"kind": "const", "data": J({"s": {0, 1}}), "version": "a"}, "find": {"kind": "none"}},
+               {"get": {"kind": "const", "data": J({"s": {2}}), "version": "b"}, "find": {"kind": "none"}}],
+     "_meta": {"scope": "nested-fixed"}},
+]
+
+
 def run_case(case):
     return {"merge": run_merge, "merge3": run_merge3, "chain": run_chain, "find": run_find,
-            "agg": run_agg}[case["kind"]](case)
+            "agg": run_agg, "nested": run_nested}[case["kind"]](case)
 
 
 # ----------------------------------------------------------------------------- shrinking
